@@ -108,6 +108,8 @@ type certStatus struct {
 	InvalidEarly int
 	InvalidLate  int
 	OtherView    int
+	AtPrimary    bool // the node is the primary of the view it accepts in
+	AMEV         bool // the anti-MEV extension is on at this height
 }
 
 func (c certStatus) ok() bool { return c.Valid >= c.M }
@@ -119,11 +121,17 @@ func (c certStatus) onlyEarlyInvalid() bool {
 	return !c.ok() && c.InvalidLate == 0 && c.InvalidEarly > 0 && c.Valid+c.InvalidEarly >= c.M
 }
 
+// knownD1: D1 is about a backup without the anti-MEV extension that stores a commit before it
+// receives the proposal.  The primary re-validates what it holds right after storing its own
+// proposal, and with the extension every stored commit is re-validated once the pre-block is
+// processed (D12 fixed), so the same shortfall there is not the known finding.
+func (c certStatus) knownD1() bool { return c.onlyEarlyInvalid() && !c.AtPrimary && !c.AMEV }
+
 // commitCert re-verifies the current-view commits the node holds against blk.
 func (n *Node) commitCert(blk *Block) certStatus {
 	d := n.d
 	vals := n.valsPub(d.BlockIndex)
-	cs := certStatus{M: mOf(len(vals))}
+	cs := certStatus{M: mOf(len(vals)), AtPrimary: d.IsPrimary(), AMEV: n.s.sc.amevAt(d.BlockIndex)}
 	for i, cp := range d.CommitPayloads {
 		if cp == nil || i >= len(vals) {
 			continue
@@ -147,7 +155,7 @@ func (n *Node) commitCert(blk *Block) certStatus {
 func (n *Node) preCommitCert(pb *PreBlock) certStatus {
 	d := n.d
 	vals := n.valsPub(d.BlockIndex)
-	cs := certStatus{M: mOf(len(vals))}
+	cs := certStatus{M: mOf(len(vals)), AtPrimary: d.IsPrimary(), AMEV: true}
 	for i, cp := range d.PreCommitPayloads {
 		if cp == nil || i >= len(vals) {
 			continue
